@@ -104,30 +104,72 @@ impl Config {
         // Options left automatic are never touched (the API cannot unset them), so the final state is exactly this
         // configuration; a builder that keeps anything from its earlier build() would show here, in every check.
         if rng.chance(1, 4) {
-            let mut touched = false;
-            if let Some(l) = self.level {
-                if rng.chance(2, 3) {
-                    b.ecl(LEVELS[(l + 1 + rng.below(3)) % 4]);
-                    touched = true;
+            // phase 1: every option gets its real value, except a non-empty subset that gets another value; build;
+            // phase 2 (below) then sets ONLY that subset to its real values: the options that were right all along are
+            // not touched again (a setter that happens to reset hidden state must not be relied upon)
+            let mut pending = [false; 4];
+            let mut any = false;
+            if let Some(m) = self.mode {
+                if rng.chance(1, 3) {
+                    b.mode(MODES[2]);
+                    pending[0] = true;
+                    any = true;
+                } else {
+                    b.mode(MODES[m]);
                 }
             }
-            if self.mode.is_some() && rng.chance(1, 2) {
-                b.mode(MODES[2]);
-                touched = true;
+            if let Some(l) = self.level {
+                if rng.chance(1, 3) {
+                    b.ecl(LEVELS[(l + 1 + rng.below(3)) % 4]);
+                    pending[1] = true;
+                    any = true;
+                } else {
+                    b.ecl(LEVELS[l]);
+                }
             }
-            if self.version.is_some() && rng.chance(1, 2) {
-                b.version(VERSIONS[rng.below(40)]);
-                touched = true;
+            if let Some(v) = self.version {
+                if rng.chance(1, 2) {
+                    // often a LARGER version than the real one (the first build then succeeds whenever the second does)
+                    let d = if rng.chance(2, 3) { (v + 1 + rng.below(6)).min(40) } else { 1 + rng.below(40) };
+                    b.version(VERSIONS[d - 1]);
+                    pending[2] = true;
+                    any = true;
+                } else {
+                    b.version(VERSIONS[v - 1]);
+                }
             }
             if let Some(m) = self.mask {
-                if rng.chance(1, 2) {
+                if rng.chance(1, 3) {
                     b.mask(MASKS[(m + 1 + rng.below(7)) % 8]);
-                    touched = true;
+                    pending[3] = true;
+                    any = true;
+                } else {
+                    b.mask(MASKS[m]);
                 }
             }
-            if touched {
+            if any {
                 let _ = b.build();
+                for which in order {
+                    if !pending[which] {
+                        continue;
+                    }
+                    match which {
+                        0 => {
+                            b.mode(MODES[self.mode.unwrap()]);
+                        }
+                        1 => {
+                            b.ecl(LEVELS[self.level.unwrap()]);
+                        }
+                        2 => {
+                            b.version(VERSIONS[self.version.unwrap() - 1]);
+                        }
+                        _ => {
+                            b.mask(MASKS[self.mask.unwrap()]);
+                        }
+                    }
+                }
             }
+            return b;
         }
         for which in order {
             let decoy = rng.chance(1, 3);
